@@ -30,6 +30,8 @@ EXPLANATION = (
 )
 TECHNIQUE += '; interprocedural must-pass summaries of API pre-flight helpers'
 EXPLANATION += ' R1/R3 accept the required-attribute check and the prepare_dump dispatch inside an API helper only if every normal exit of the helper passes through them.'
+TECHNIQUE += '; evaluation of the segmentation pre-flight on abstract shells'
+EXPLANATION += ' R5 also includes the agreement of prepare_segmented with convert_to_segmented on 20 abstract shell / keep_sp combinations (shared with C14-R2).'
 TRUSTED = [
     "CPython ast parser", "open(name, 'w') is the only truncation point (POSIX)",
     "with-statement closes the file on every exit", "whitelisted total externals do not raise",
@@ -346,6 +348,10 @@ def run(ctx):
     if check_guard_matrix is not None:
         ctx.rule("R5", "prepare_dump guard matrix", "a dropped guard lets an unsupported object through to a writer that mis-writes it or fails after truncation")
         check_guard_matrix(ctx, "R5")
+        # the segmentation pre-flight agrees with the converter (evaluated on abstract shells; shared with C14-R2)
+        from .segpred import check_segmentation
+
+        check_segmentation(ctx, "R5", "R5")
 
 
 def _preflight_summary(prog, h, chk, depth=0):
